@@ -86,7 +86,13 @@ func GenMatcher(t *rapid.T, fields []Field, label string) gen.Matcher {
 		if rapid.IntRange(0, 2).Draw(t, label+"-reval") == 0 {
 			// a value of the pool, used as a regex (values contain no regex meta characters
 			// other than '.', which still matches itself)
-			m.Value = genBS(regexpQuote(rapid.SampledFrom(f.Pool).Draw(t, label+"-val")))
+			v := rapid.SampledFrom(f.Pool).Draw(t, label+"-val")
+			m.Value = genBS(regexpQuote(v))
+			if !utf8.ValidString(v) {
+				// a regular expression is text: bytes that are not UTF-8 can only be compared
+				m.Value = genBS(v)
+				m.Op = map[string]string{"=~": "=", "!~": "!="}[m.Op]
+			}
 		} else {
 			m.Value = genBS(rapid.SampledFrom(labelRegexes).Draw(t, label+"-re"))
 		}
